@@ -70,6 +70,12 @@ class CmpExtractor:
             return ("const", n["id"])
         if k == "Adt" and not n["fields"]:
             return ("const", n["adt"] + "::" + n["variant"])
+        if k == "Adt" and n.get("adt") == "core::option::Option" and n.get("variant") == "Some" and len(n["fields"]) == 1:
+            # `Some(x)` where x was bound from `Some(x) = <path>`: the option itself
+            inner = self.pv(n["fields"][0]["e"], env)
+            if self.is_path(inner) and inner[-1] == "Some":
+                return inner[:-1]
+            return None
         if k == "Call":
             c = callee(n) or ""
             args = n["args"]
@@ -195,7 +201,7 @@ class CmpExtractor:
 
     # ---- recording -------------------------------------------------------
     def add(self, kind, **kw):
-        f = Fact(kind=kind, arm=self.arm, **kw)
+        f = Fact(kind=kind, arm=self.arm, alt=tuple(getattr(self, "alt", ())), **kw)
         self.out.append(f)
 
     def note_cond_paths(self, n, env):
@@ -404,10 +410,18 @@ class CmpExtractor:
                                          "arm": self.arm, "start": None, "ranges": []})
             self.cond(n["c"], envc, rw)
             d0 = len(self.markers)
+            split = bool(result and n.get("f") and (self.stack or self.arm != "<top>"))
+            old_alt = tuple(getattr(self, "alt", ()))
+            if split:
+                self.alt_n = getattr(self, "alt_n", 0) + 1
+                self.alt = old_alt + (f"if{self.alt_n}.t",)
             self.body_expr(n["t"], dict(env), result)
             self.suspend(d0)
             if n.get("f"):
+                if split:
+                    self.alt = old_alt + (f"if{self.alt_n}.f",)
                 self.body_expr(n["f"], dict(env), result)
+            self.alt = old_alt
             self.resume(dpre)
         elif k == "Match":
             self.match(n, env, result)
@@ -493,11 +507,18 @@ class CmpExtractor:
         scrut = self.pv(n["e"], env)
         top = (self.arm == "<top>" and not self.stack and isinstance(scrut, tuple) and scrut and scrut[0] == "tuple")
         d0 = len(self.markers)
-        for a in n["arms"]:
+        split = bool(result and not top and len(n["arms"]) > 1)
+        old_alt = tuple(getattr(self, "alt", ()))
+        if split:
+            self.alt_n = getattr(self, "alt_n", 0) + 1
+            mid = self.alt_n
+        for ai, a in enumerate(n["arms"]):
             self.suspend(d0)      # comparisons in a sibling arm do not follow a shortcut taken in this one
             env2 = dict(env)
             self.bind(a["pat"], scrut, env2)
             old = self.arm
+            if split:
+                self.alt = old_alt + (f"m{mid}.{ai}:{self.arm_name(a['pat'])}",)
             if top:
                 self.arm = self.arm_name(a["pat"])
             if a.get("guard"):
@@ -507,6 +528,7 @@ class CmpExtractor:
             if result and isinstance(b, dict) and b.get("k") not in ("Block", "If", "Match", "Return"):
                 self.result_expr(b, env2)
             self.arm = old
+        self.alt = old_alt
         self.resume(d0)
 
     def arm_name(self, p):
